@@ -18,7 +18,7 @@ EXPLANATION = (
     "(empty -> best of the current population; otherwise replaced iff strictly better). Linear::map is "
     "(end-start)*value+start, applied once through its input and output lens; in real_pso (template tree, K12) the "
     "mapping reads Progress<ValueOf<Iterations>> and writes InertiaWeight<ParticleVelocitiesUpdate>, the state the "
-    "velocity update reads, and runs once per pass; init stores the configured start weight. NOT decided: numeric "
+    "velocity update reads, and runs once per pass; init stores the configured start weight. (R4) PersonalBestParticlesInit / ParticleVelocitiesInit leave exactly one memory / one velocity (one fresh draw from [-v_max, v_max] per dimension) per particle whatever their collections held before (re-initialisation). NOT decided: numeric "
     "values of the interpolation over a whole run.")
 ASSUMPTIONS = ["f64::clamp and IEEE arithmetic as modelled by the host"]
 
